@@ -193,6 +193,8 @@ var malformedPieces = []struct{ Text, Why string }{
 	{"metadata:k:", "empty value after sub-qualifier"},
 	{"metadata::v", "empty sub-qualifier"},
 	{"a:b:c:d", "too many separators"},
+	{"label::prod", "empty part between two colons"},
+	{"metadata:k::v", "empty part between two colons"},
 	{`title:"unterminated`, "unmatched double quote"},
 	{`"unterminated phrase`, "unmatched double quote"},
 }
